@@ -34,7 +34,10 @@ RULE = ('every elementary class (Gaussian / log-normal centred and non-centred, 
         'undocumented shapes (reshape / index / broadcast errors, the transposed matrix); random '
         'compositions of 1-7 sub-models, bare or covariate-wrapped (1-2 covariates, full or partial '
         'selections); compute_pointwise_ll; 1-D observations for one-dimensional models; a dedicated '
-        'stream for every guard class and for the extreme n_dim / n_ids; non-trivial = n_dim >= 2 and n_ids >= 2; distinct = distinct '
+        'stream for every guard class and for the extreme n_dim / n_ids; whole-number cases in which each '
+        'argument (parameters in every layout, observations, dlogp_dpsi, eta, covariates) of every method of '
+        'every class and of compositions is handed over as float64 array / int64 array / list of Python '
+        'floats / list of Python ints; non-trivial = n_dim >= 2 and n_ids >= 2; distinct = distinct '
         '(class, n_dim, n_ids, guard class, upstream supplied)')
 ASSUMPTIONS = [
     'covariate-wrapped sub-models use the linear covariate transform of C07 (Covariate.lean: covTh, covSens); '
@@ -863,6 +866,196 @@ def odd_shapes(ctx, chi):
             ctx.agree('C05.odd-shape/' + k_, v_, True, inp)
 
 
+# ----------------------------------------------------------------------------------------
+# whole numbers handed over as integers
+# ----------------------------------------------------------------------------------------
+def canon(r):
+    """floats / arrays / tuples of them -> nested lists of Python floats"""
+    if isinstance(r, (tuple, list)):
+        return [canon(v) for v in r]
+    a = np.asarray(r, float)
+    return a.tolist()
+
+
+def number_variants(ctx, tag, fn, x, inp):
+    """`x` (any rank) holds whole numbers; `fn(x)` must not depend on whether they arrive as a
+    float64 array, an int64 array, a nested list of Python floats or a nested list of Python ints
+    (the list forms are compared with each other, so a method that only takes arrays is not blamed
+    for that here). Generalises `Ctx.number_types` to arrays of any rank."""
+    xf = np.asarray(x, float)
+    if xf.size == 0 or not np.all(xf == np.round(xf)):
+        return
+    base = chi_call(lambda: canon(fn(xf.copy())))
+    if not is_err(base):
+        r = chi_call(lambda: canon(fn(xf.astype(np.int64))))
+        spec(ctx, '%s/int64_array' % tag, (not is_err(r)) and core.close(base, r), dict(inp, whole_numbers=xf),
+             {'float64_array': base, 'int64_array': r})
+    lbase = chi_call(lambda: canon(fn(xf.tolist())))
+    if not is_err(lbase):
+        r = chi_call(lambda: canon(fn(xf.astype(np.int64).tolist())))
+        spec(ctx, '%s/python_int_list' % tag, (not is_err(r)) and core.close(lbase, r),
+             dict(inp, whole_numbers=xf), {'python_float_list': lbase, 'python_int_list': r})
+
+
+def gen_whole(rng, code, n_dim, n_ids):
+    """a case inside the support whose every number is whole"""
+    if code in HIER:
+        mu = rng.integers(0, 4, n_dim).astype(float)
+        sg = rng.integers(1, 4, n_dim).astype(float)
+        TH = np.vstack([mu, sg])
+        if code in ('Gn', 'Ln'):
+            obs = rng.integers(-2, 3, (n_ids, n_dim)).astype(float)
+        elif code == 'Gc':
+            obs = rng.integers(-3, 6, (n_ids, n_dim)).astype(float)
+        else:
+            obs = rng.integers(1, 6, (n_ids, n_dim)).astype(float)
+    elif code == 'P':
+        TH = rng.integers(1, 6, (1, n_dim)).astype(float)
+        obs = np.broadcast_to(TH, (n_ids, n_dim)).copy()
+    else:
+        TH = rng.integers(1, 6, (n_ids, n_dim)).astype(float)
+        obs = TH.copy()
+    up = rng.integers(-3, 4, (n_ids, n_dim)).astype(float)
+    return {'kind': code, 'n_dim': n_dim, 'n_ids': n_ids, 'theta': TH, 'obs': obs, 'up': up,
+            'guard': 'inside'}
+
+
+def run_whole_elementary(ctx, chi, c):
+    """every public method, every argument: integers = the same numbers as floats"""
+    code, n_dim, n_ids = c['kind'], int(c['n_dim']), int(c['n_ids'])
+    TH = np.asarray(c['theta'], float)
+    obs = np.asarray(c['obs'], float)
+    up = np.asarray(c['up'], float)
+    cls = CLASSNAME[code] + ('(nc)' if code in ('Gn', 'Ln') else '')
+    inp = dict(c, whole=True)
+    m = make_model(chi, code, n_dim, n_ids)
+    ctx.case('whole-numbers/%s' % code, nontrivial=('whole/%s/nd%d/ni%d' % (code, n_dim, n_ids))
+             if (n_dim >= 2 and n_ids >= 2) else False, sample=inp)
+    T = 'C05.number_types/' + cls
+    for lk, P in layouts(TH, n_ids).items():
+        if (lk, code, 'sens') in VARIANT_SITES or (lk, code, 'indiv') in VARIANT_SITES:
+            sens_ok = (lk, code, 'sens') not in VARIANT_SITES
+            indiv_ok = (lk, code, 'indiv') not in VARIANT_SITES
+        else:
+            sens_ok = indiv_ok = True
+        i2 = dict(inp, layout=lk)
+        number_variants(ctx, '%s.compute_log_likelihood/parameters' % T,
+                        lambda x: m.compute_log_likelihood(x, obs), P, i2)
+        number_variants(ctx, '%s.compute_log_likelihood/observations' % T,
+                        lambda x: m.compute_log_likelihood(P, x), obs, i2)
+        if code == 'P' and lk != 'tensor':
+            number_variants(ctx, '%s.compute_pointwise_ll/parameters' % T,
+                            lambda x: m.compute_pointwise_ll(x, obs), P, i2)
+            number_variants(ctx, '%s.compute_pointwise_ll/observations' % T,
+                            lambda x: m.compute_pointwise_ll(P, x), obs, i2)
+        if sens_ok:
+            for form, kw in (('separate', {'flattened': False}), ('flattened', {}), ('reduce', {'reduce': True})):
+                t2 = '%s.compute_sensitivities[%s]' % (T, form)
+                number_variants(ctx, t2 + '/parameters',
+                                lambda x: m.compute_sensitivities(x, obs, dlogp_dpsi=up.copy(), **kw), P, i2)
+                number_variants(ctx, t2 + '/observations',
+                                lambda x: m.compute_sensitivities(P, x, dlogp_dpsi=up.copy(), **kw), obs, i2)
+                number_variants(ctx, t2 + '/dlogp_dpsi',
+                                lambda x: m.compute_sensitivities(P, obs, dlogp_dpsi=x, **kw), up, i2)
+        if indiv_ok:
+            number_variants(ctx, '%s.compute_individual_parameters/parameters' % T,
+                            lambda x: m.compute_individual_parameters(x, obs), P, i2)
+            number_variants(ctx, '%s.compute_individual_parameters/eta' % T,
+                            lambda x: m.compute_individual_parameters(P, x), obs, i2)
+            if code in HIER:
+                number_variants(ctx, '%s.compute_individual_parameters/eta-1d' % T,
+                                lambda x: m.compute_individual_parameters(P, x), obs.flatten(), i2)
+
+
+def gen_whole_composed(rng, with_cov):
+    n_sub = int(rng.integers(1, 5))
+    n_ids = int(rng.integers(1, 5))
+    subs, params, cols, covs = [], [], [], []
+    for _ in range(n_sub):
+        kind = KCODES[int(rng.integers(len(KCODES)))]
+        nd = int(rng.integers(1, 4))
+        c = gen_whole(rng, kind, nd, n_ids)
+        if with_cov and rng.random() < 0.6:
+            n_cov = int(rng.integers(1, 3))
+            n_per = per_dim(kind, n_ids)
+            allp = [(p_, d_) for p_ in range(n_per) for d_ in range(nd)]
+            kk = int(rng.integers(1, len(allp) + 1))
+            sel = [allp[j] for j in sorted(rng.choice(len(allp), size=kk, replace=False))]
+            sub = [kind, nd, n_cov, [list(x) for x in sel]]
+            cov = rng.integers(-1, 2, size=(n_ids, n_cov)).astype(float)
+            beta = rng.integers(-1, 2, size=(len(sel), n_cov)).astype(float)
+            base = np.asarray(c['theta'], float)
+            if kind in HIER:
+                base[1] += 2 * n_cov           # scales stay positive for every individual
+            flat = np.concatenate([base.flatten(), beta.flatten()])
+            th = vartheta(sub, n_ids, flat, cov)
+            o = c['obs']
+            if kind == 'P':
+                o = th[:, 0].copy()
+            elif kind == 'H':
+                o = np.array([th[i_, i_] for i_ in range(n_ids)])
+            subs.append(sub)
+            params.append(flat)
+            cols.append(o)
+            covs.append(cov)
+        else:
+            subs.append([kind, nd])
+            params.append(np.asarray(c['theta']).flatten())
+            cols.append(c['obs'])
+    obs = np.hstack(cols)
+    cov = np.hstack(covs) if covs else np.zeros((n_ids, 0))
+    up = rng.integers(-3, 4, obs.shape).astype(float)
+    return {'subs': subs, 'n_ids': n_ids, 'params': np.concatenate(params), 'obs': obs, 'cov': cov,
+            'up': up, 'guard': 'inside'}
+
+
+def run_whole_composed(ctx, chi, c):
+    subs = [list(norm_sub(x)) for x in c['subs']]
+    n_ids = int(c['n_ids'])
+    params = np.asarray(c['params'], float)
+    n_dim = sum(x[1] for x in subs)
+    n_cov = sum(x[2] for x in subs)
+    obs = np.asarray(c['obs'], float).reshape(n_ids, n_dim)
+    cov = np.asarray(c['cov'], float).reshape(n_ids, n_cov)
+    up = np.asarray(c['up'], float).reshape(n_ids, n_dim)
+    inp = dict(c, subs=[wire_sub(x) for x in subs], whole=True)
+    cm = chi.ComposedPopulationModel([make_sub(chi, x, n_ids) for x in subs])
+    cm.set_n_ids(n_ids)
+    ctx.case('whole-numbers/composed/%s' % ('cov' if n_cov else 'plain'),
+             nontrivial=('whole/composed/%s/ni%d' % ('+'.join(x[0] for x in subs), n_ids))
+             if len(subs) >= 2 else False, sample=inp)
+    T = 'C05.number_types/ComposedPopulationModel'
+
+    def kw(cv=cov):
+        return {'covariates': cv} if n_cov > 0 else {}
+    args = [('parameters', params), ('observations', obs)] + ([('covariates', cov)] if n_cov else [])
+
+    def call(method, name, x, **extra):
+        a = {'parameters': params, 'observations': obs, 'covariates': cov}
+        a[name] = x
+        k_ = {'covariates': a['covariates']} if n_cov > 0 else {}
+        k_.update(extra)
+        return getattr(cm, method)(a['parameters'], a['observations'], **k_)
+    for name, x in args:
+        number_variants(ctx, '%s.compute_log_likelihood/%s' % (T, name),
+                        lambda v, name=name: call('compute_log_likelihood', name, v), x, inp)
+        for form, ex in (('separate', {}), ('reduce', {'reduce': True})):
+            number_variants(ctx, '%s.compute_sensitivities[%s]/%s' % (T, form, name),
+                            lambda v, name=name, ex=ex: call('compute_sensitivities', name, v,
+                                                             dlogp_dpsi=up.copy(), **ex), x, inp)
+    for form, ex in (('separate', {}), ('reduce', {'reduce': True})):
+        number_variants(ctx, '%s.compute_sensitivities[%s]/dlogp_dpsi' % (T, form),
+                        lambda v, ex=ex: cm.compute_sensitivities(params, obs, dlogp_dpsi=v, **kw(), **ex), up, inp)
+    number_variants(ctx, T + '.compute_individual_parameters/parameters',
+                    lambda v: cm.compute_individual_parameters(v, obs, **kw()), params, inp)
+    number_variants(ctx, T + '.compute_individual_parameters/eta',
+                    lambda v: cm.compute_individual_parameters(params, v, **kw()), obs, inp)
+    if n_cov:
+        number_variants(ctx, T + '.compute_individual_parameters/covariates',
+                        lambda v: cm.compute_individual_parameters(params, obs, **kw(v)), cov, inp)
+
+
+
 GUARDS = {'Gc': ['sigma=0', 'sigma<0'], 'Gn': ['sigma=0', 'sigma<0'], 'Lc': ['sigma=0', 'sigma<0', 'psi<=0'],
           'Ln': ['sigma=0', 'sigma<0'], 'T': ['sigma=0', 'sigma<0', 'psi<=0'], 'P': ['mismatch'],
           'H': ['mismatch']}
@@ -900,6 +1093,13 @@ def run(ctx):
     for i in range(6 if quick else 300):        # long compositions
         ctx.guard(run_composed, ctx, chi,
                   gen_composed(ctx.sub_rng(5 * 10 ** 6 + i), n_sub=5 + i % 3, with_cov=bool(i % 2)))
+    # whole numbers handed over as integers: every method, every argument
+    for i in range(42 if quick else 1400):
+        rng = ctx.sub_rng(6 * 10 ** 6 + i)
+        ctx.guard(run_whole_elementary, ctx, chi,
+                  gen_whole(rng, KCODES[i % len(KCODES)], int(rng.integers(1, 4)), int(rng.integers(1, 5))))
+    for i in range(30 if quick else 900):
+        ctx.guard(run_whole_composed, ctx, chi, gen_whole_composed(ctx.sub_rng(7 * 10 ** 6 + i), bool(i % 2)))
     if not quick:
         # exhaustive small compositions: every ordered pair of kinds with dims 1-2, every triple with dim 1
         rng = ctx.sub_rng(3 * 10 ** 6)
@@ -946,7 +1146,12 @@ def replay(ctx, data):
     inp = {k: _num(v) for k, v in failing.get('input', {}).items()}
     print('replaying', failing.get('tag') or failing.get('correspondence'))
     print(json.dumps(core.jsonable(inp))[:1500])
-    if 'subs' in inp:
+    inp.pop('whole_numbers', None)
+    if inp.get('whole') and 'subs' in inp:
+        run_whole_composed(ctx, chi, inp)
+    elif inp.get('whole'):
+        run_whole_elementary(ctx, chi, inp)
+    elif 'subs' in inp:
         run_composed(ctx, chi, inp)
     elif 'tensor' in inp:
         run_tensor(ctx, chi, inp)
